@@ -1,7 +1,6 @@
 package main
 
 import (
-	"io"
 	"bufio"
 	"bytes"
 	"compress/gzip"
@@ -10,6 +9,7 @@ import (
 	"encoding/base64"
 	"encoding/json"
 	"fmt"
+	"io"
 	"net/http"
 	"net/http/httptest"
 	"net/url"
@@ -384,15 +384,15 @@ func md5b64(b []byte) string {
 // ---- observed object metadata ---------------------------------------------------------------
 
 type gMeta struct {
-	Name, Bucket                                                    string
-	ContentType                                                     string
-	Size                                                            int64
-	Md5                                                             string
-	Gen, Metagen                                                    int64
-	Metadata                                                        map[string]string
+	Name, Bucket                                                   string
+	ContentType                                                    string
+	Size                                                           int64
+	Md5                                                            string
+	Gen, Metagen                                                   int64
+	Metadata                                                       map[string]string
 	CacheControl, ContentDisposition, ContentEncoding, ContentLang string
-	TimeCreated, Updated                                            string
-	Raw                                                             map[string]interface{}
+	TimeCreated, Updated                                           string
+	Raw                                                            map[string]interface{}
 }
 
 func num(v interface{}) int64 {
